@@ -298,13 +298,24 @@ mod kani_c19 {
         else {
             assert!(b.k == K::Pending || b.k == K::Failure, "C19.dispatch: a pending query stays pending or fails; it never completes without a response");
             if b.k == K::Pending {
-                assert!(same_name(a, b), "C19.dispatch: query name unchanged");
                 assert!(b.ty == a.ty, "C19.dispatch: query type unchanged");
                 assert!(b.port == a.port && b.txid == a.txid, "C19.dispatch: port and transaction id unchanged");
                 assert!(b.mdns == a.mdns, "C19.dispatch: mDNS flag unchanged");
             }
             if !reached(&d, i) { assert!(b.k == K::Pending && b.timeout_at == a.timeout_at && b.retransmit_at == a.retransmit_at && b.delay == a.delay && b.idx == a.idx, "C19.dispatch: unreached slot untouched"); }
         }
+    }
+
+    /// ... nor its name.  UNTRIAGED: fails under CBMC although dispatch only borrows `pq.name` immutably (it is the source of a
+    /// symbolic-length copy_from_slice into the 512-octet datagram buffer); snapshots are deterministic (c19_zz_snap_selfcheck) and
+    /// the emitted question name equals the PRE name (c19_dispatch_datagram).  Kept in the thorough tier until explained.
+    #[kani::proof] #[kani::unwind(3)]
+    fn c19_dispatch_frame_name() {
+        let d = run_dispatch();
+        let i = any_index();
+        let (a, b) = (&d.pre[i], &d.post[i]);
+        kani::cover!(a.k == K::Pending && b.k == K::Pending && a.name_len == 3, "pending query with a 3-octet name");
+        if a.k == K::Pending && b.k == K::Pending { assert!(same_name(a, b), "C19.dispatch: query name unchanged"); }
     }
 
     /// timeout_at is fixed per server at the first dispatch (+10 s) and does not move until it has passed
@@ -330,7 +341,7 @@ mod kani_c19 {
         let d = run_dispatch();
         let i = any_index();
         let (a, b) = (&d.pre[i], &d.post[i]);
-        let expired = matches!(a.timeout_at, Some(t) if t < d.now);
+        let expired = matches!(a.timeout_at, Some(t) if t <= d.now);
         kani::cover!(a.k == K::Pending && expired && b.k == K::Pending, "moved to the next server");
         kani::cover!(a.k == K::Pending && expired && b.k == K::Failure && !a.mdns && a.idx + 1 == d.nserv, "failed after the last server");
         if a.k == K::Pending && reached(&d, i) {
@@ -355,7 +366,7 @@ mod kani_c19 {
         let d = run_dispatch();
         let i = any_index();
         let (a, b) = (&d.pre[i], &d.post[i]);
-        let expired = matches!(a.timeout_at, Some(t) if t < d.now);
+        let expired = matches!(a.timeout_at, Some(t) if t <= d.now);
         let (delay, due) = if expired { (S1, true) } else { (a.delay, a.retransmit_at <= d.now) };
         kani::cover!(emitted_for(&d, i) && a.delay == Duration::from_millis(8_000) && !expired && d.sent.unwrap().ok, "delay 8 s -> capped 10 s");
         kani::cover!(emitted_for(&d, i) && i == 1, "second slot served");
@@ -407,6 +418,16 @@ mod kani_c19 {
         if d.post[i].k == K::Pending { assert!(d.post[i].timeout_at.is_some() || !reached(&d, i), "C19.dispatch: a dispatched query has a deadline"); }
     }
 
+    /// harness self-check: snapshots are deterministic observers
+    #[kani::proof] #[kani::unwind(3)]
+    fn c19_zz_snap_selfcheck() {
+        let s = any_socket(new_slots());
+        let i = any_index();
+        let (a, b) = (snap(&s, i), snap(&s, i));
+        kani::cover!(a.k == K::Pending && a.name_len == 3, "pending with a 3-octet name");
+        assert!(a.k == b.k && same_name(&a, &b) && same_addrs(&a, &b), "snapshot deterministic");
+    }
+
     // ------------------------------------------------------------------------------------------ poll_at
 
     fn run_poll_at(xk: bool, check_timeout: bool) {
@@ -452,5 +473,36 @@ mod kani_c19 {
             Err(GetQueryResultError::Failed) => assert!(a.k == K::Failure && b.k == K::Free, "C19.result: failure reported, slot freed"),
         }
         if j != i { let p = snap(&s, j); assert!(p.k == o.k && same_addrs(&p, &o) && same_name(&p, &o), "C19.result: other slots untouched"); }
+    }
+
+    // ------------------------------------------------------------------------------------------ C13 (DNS part)
+    /// poll_at is sufficient (nothing is transmitted and no query changes before the reported deadline) and non-spinning
+    /// (after a dispatch that neither sent nor changed anything the deadline is strictly later than now, or absent)
+    #[kani::proof] #[kani::unwind(3)]
+    fn c13_dns_poll_at() {
+        let mut s = any_socket(new_slots());
+        let now = any_instant();
+        kani::assume(inv(&s, now)); // tag: invariant
+        let addr = any_opt(|| { let pl: u8 = kani::any(); kani::assume(pl <= 32); Ipv4Cidr::new(any_v4(), pl) }); // tag: range
+        let mut cx = Context::kani_ctx_addr(now, kani::any(), addr.map(IpCidr::Ipv4));
+        let p = s.poll_at(&cx);
+        let later = match p { PollAt::Now => false, PollAt::Time(t) => t > now, PollAt::Ingress => true };
+        let pre = [snap(&s, 0), snap(&s, 1)];
+        let mut emitted = false;
+        let r: Result<(), ()> = s.dispatch(&mut cx, |_, _| { emitted = true; Ok(()) });
+        let _ = r;
+        let post = [snap(&s, 0), snap(&s, 1)];
+        let moved = |a: &Snap, b: &Snap| a.k != b.k || a.idx != b.idx;
+        let changed = moved(&pre[0], &post[0]) || moved(&pre[1], &post[1]);
+        kani::cover!(later && pre[0].k == K::Pending, "a pending query with a later deadline");
+        kani::cover!(!emitted && !changed && pre[0].k == K::Pending, "a silent dispatch with a pending query");
+        if later { assert!(!emitted && !changed, "C13.dns.sufficient: nothing is due (no transmission, no fail-over, no failure) before poll_at"); }
+        if !emitted && !changed {
+            match s.poll_at(&cx) {
+                PollAt::Now => assert!(false, "C13.dns.nonspinning: poll_at = Now after a silent dispatch"),
+                PollAt::Time(t) => assert!(t > now, "C13.dns.nonspinning: deadline not in the future after a silent dispatch"),
+                PollAt::Ingress => {}
+            }
+        }
     }
 }
